@@ -222,7 +222,14 @@ def stepCanister (d : DState) (ws : List String) : DState × String :=
   | ["upgrade", arg, addrs], some s =>
     let cfg : Option State.SetConfig :=
       if arg.startsWith "thr=" then some { stabilityThreshold := some (dropPrefix arg 4).toNat! } else none
-    let s' := s.upgrade cfg
+    -- the fee percentiles are asked (an update call: it may fill the cache) before and after
+    let fees (st : State) : State × String :=
+      if (st.guard (envOf d) st.network true).isSome then (st, "trap") else
+      match st.feePercentiles Btc.Gen.numTransactions with
+      | none => (st, "trap")
+      | some (st', p) => (st', showNatList p)
+    let (s, feesBefore) := fees s
+    let (s', feesAfter) := fees (s.upgrade cfg)
     let raised := s.utxos.ingesting.isSome && s'.unstable.thr > s.unstable.thr
     -- C09: the labelled answers of every query endpoint before and after
     let obsVec (st : State) : List (String × String) :=
@@ -234,7 +241,7 @@ def stepCanister (d : DState) (ws : List String) : DState × String :=
          (s!"balance{p.1}", guarded (showBalance (st.getBalance (.ok (strBytes p.2)) 0)))]) ++
       [("headers", guarded (showHeaders (st.getBlockHeaders Btc.Gen.maxBlockHeadersPerResponse 0 none))),
        ("synced", if st.isSynced Btc.Gen.syncedThreshold then "1" else "0")]
-    let same := match ((obsVec s).zip (obsVec s')).find? (fun p => p.1.2 != p.2.2) with
+    let same := match ((obsVec s ++ [("fees", feesBefore)]).zip (obsVec s' ++ [("fees", feesAfter)])).find? (fun p => p.1.2 != p.2.2) with
       | none => "same=1:-"
       | some p => s!"same=0:{p.1.1}"
     ({ d with st := some s', thrRaisedWhilePaused := d.thrRaisedWhilePaused || raised },
